@@ -58,7 +58,7 @@ Grow(x, ops) ==
            {Fn(f, <<x>>) : f \in {g \in UnaryFns : FnK(g, <<kx>>) # KE /\ hx + (IF g = "exp" THEN 1 ELSE 0) <= 2}}
            \cup {Fn("max", <<x, y.e>>) : y \in {z \in ops : ~z.raw /\ FnK("max", <<kx, z.k>>) # KE}}
            \cup {Fn("max", <<y.e, x>>) : y \in {z \in ops : ~z.raw /\ FnK("max", <<z.k, kx>>) # KE}}
-           \cup {c \in {Shift("time", x), Shift("iter", x)} : WellTyped(c)})
+           \cup {c \in {Shift(m, x) : m \in ShiftModes} : WellTyped(c)})
 
 AllOperands == InfoSet(AllLeafExprs)
 CoreOperands == InfoSet(CoreLeafExprs)
@@ -79,8 +79,8 @@ Code(x) == CASE x[1] = "leaf" -> LeafIdx(x[2]) + 37 * (x[3] + 1) + 41 * (x[4] + 
              [] x[1] = "fn" -> (7 * Len(x[2]) + 5 * Len(x[3]) + 29 * Code(x[3][1]) + (IF Len(x[3]) = 2 THEN 23 * Code(x[3][2]) ELSE 0)) % 9973
              [] OTHER -> (11 + Len(x[2]) + 3 * Code(x[3])) % 9973
 
-\* composites outside the sample are still shifted to the previous time step / iterate (two successors, cheap)
-ShiftsOf(x) == {c \in {Shift("time", x), Shift("iter", x)} : WellTyped(c)}
+\* composites outside the sample are still shifted 1 and 2 steps to previous time steps / iterates (cheap)
+ShiftsOf(x) == {c \in {Shift(m, x) : m \in ShiftModes} : WellTyped(c)}
 Next == /\ Depth(e) < MaxDepth
         /\ IF Depth(e) = 0 THEN e' \in Grow(e, Operands(e))
            ELSE /\ OverCore(e)
